@@ -36,6 +36,9 @@ def units(tier):
     progs = []
     for p in PG.base_programs():
         if _one(p):
+            if p.get("unit") == "module_spec":
+                progs.append(p)
+                continue
             for unit in ("program", "subroutine", "function"):
                 pp = dict(p)
                 pp["unit"] = unit
